@@ -3,7 +3,7 @@
 # runs the quick checks (default: all twenty), reverts /repo. Prints which checks fired.
 id=$1; shift
 props=${@:-C01 C02 C03 C04 C05 C06 C07 C08 C09 C10 C11 C12 C13 C14 C15 C16 C17 C18 C19 C20}
-case $id in *-2) src=/tmp/seed2_${id%-2}/OUT;; *-3) src=/tmp/seed3_${id%-3}/OUT;; *-4) src=/tmp/seed4_${id%-4}/OUT;; *) src=/tmp/seed_$id/OUT;; esac
+case $id in *-2) src=/tmp/seed2_${id%-2}/OUT;; *-3) src=/tmp/seed3_${id%-3}/OUT;; *-4) src=/tmp/seed4_${id%-4}/OUT;; *-5) src=/tmp/seed5_${id%-5}/OUT;; *) src=/tmp/seed_$id/OUT;; esac
 dst=/verif/seeded/$id
 mkdir -p $dst
 if [ -d $src ]; then cp -r $src/. $dst/; fi
